@@ -32,9 +32,19 @@ impl<R: Read> Iterator for CharReader<R> {
     type Item = Result<char, CharReaderError>;
 
     fn next(&mut self) -> Option<Self::Item> {
-        if self.buf_len == 0 {
-            self.buf_len = match self.inner.read(&mut self.buf) {
-                Ok(len) => len,
+        // Top the buffer up until it starts with a complete (or invalid) sequence: a read may
+        // return fewer bytes than a character needs, and a character may straddle two reads.
+        while self.buf_len < self.buf.len() {
+            let undecided = match str::from_utf8(&self.buf[0..self.buf_len]) {
+                Ok(s) => s.is_empty(),
+                Err(e) => e.valid_up_to() == 0 && e.error_len().is_none(),
+            };
+            if !undecided {
+                break;
+            }
+            match self.inner.read(&mut self.buf[self.buf_len..]) {
+                Ok(0) => break,
+                Ok(len) => self.buf_len += len,
                 Err(e) => return Some(Err(e.into())),
             }
         }
